@@ -50,6 +50,23 @@ actions see, and the state (md5 of every file_dep, existence of targets) at ever
         before the run; recd = the (key, value) pairs save_success was seen handing to backend.set), evaluated in
         Coq together with the trace.  This is the term C06_interrupt_db / C06_interrupt_record_untouched speak about.
 
+(1c) execution modes (implementation side only).  HOW an action is executed is decided by task attributes the Coq side does
+    not model: `io: {'capture': True | False | None}` (PythonAction.execute / CmdAction.execute take a different path through
+    their stream set-up and their `finally:` block when the output is not captured), `verbosity` 0/1/2 (which streams are handed
+    to the action) and the action class (python-action / cmd-action `true` / `false` as an earlier, not interrupted action).
+    Model/Runner.v and Model/Crash.v have ONE trace for an interrupting action whatever these attributes are, so the
+    correspondence and the oracles above already say what must happen; the attributes are varied on the implementation side:
+      * every generated task of (1), (1b) and (2) gets io / verbosity (and cmd-actions, in (1)) from the case's PRNG;
+      * a SYSTEMATIC block that is the same on every seed: a fixed chain t3 <- t2 <- t1 <- t0 (t3 default, t2 capture None
+        verbosity 1, t1 capture False verbosity 0 two actions, t0 capture False verbosity 2, cmd-action first); the interrupt at
+        every action of t2, t1, t0 x every backend x {serial, thread, process} runner, KeyboardInterrupt and SystemExit
+        alternating (quick tier, parallel runners: three of the five actions, two of them in capture-False tasks; thorough: all, both
+        exceptions, and with a fresh DB as well).
+      * oracle 0 (the run IS interrupted): once the interrupted action was started, the exception escapes DoitMain.run (exit
+        status 4 of the child, never 0..3), no action logs a start after the interrupting one (serial runner), and the
+        interrupted task is neither reported successful nor saved.  An interrupt that is swallowed is a violation of its own,
+        whatever the DB says afterwards.
+
 (2) kill sweep.  The same child under
         strace -f -P <db files> -e trace=S -e inject=<s>:signal=SIGKILL:when=<k>
         S = openat,write,pwrite64,rename,unlink,ftruncate,fsync,fdatasync
@@ -181,6 +198,10 @@ def child_main(spec_path):
     dep_state = dep_state_of
 
     def make_action(t, ai, act):
+        if act.get('cmd') and act['kind'] in ('ok', 'fail') and ai < len(t['actions']) - 1 and not act.get('ret'):
+            # cmd-action (a string: CmdAction, shell=True); never the last action (that one writes the targets and the log)
+            return 'true' if act['kind'] == 'ok' else 'false'
+
         def action(v=None):
             log('start', run_id, t['name'], ai)
             kind = act['kind']
@@ -233,6 +254,11 @@ def child_main(spec_path):
                 d['uptodate'] = [make_uptodate(t)]
             if t.get('getargs'):
                 d['getargs'] = {'v': (t['getargs'][0], t['getargs'][1])}
+            # how the actions are executed (not modelled on the Coq side, see (1c)): capture mode and verbosity
+            if t.get('io') is not None:
+                d['io'] = dict(t['io'])
+            if t.get('verbosity') is not None:
+                d['verbosity'] = t['verbosity']
             return d
         return creator
 
@@ -373,6 +399,46 @@ def db_files(d, backend):
 
 
 # ------------------------------------------------------------------ scenarios
+def exec_attrs(rng):
+    """task attributes that change HOW the actions of a task are executed and nothing about what the run has to do (1c):
+    io capture True / False / None / not given, verbosity 0 / 1 / 2 / not given"""
+    a = {}
+    r = rng.random()
+    if r < 0.35:
+        a['io'] = {'capture': False}
+    elif r < 0.45:
+        a['io'] = {'capture': None}
+    elif r < 0.6:
+        a['io'] = {'capture': True}
+    v = rng.choice([None, 0, 1, 2])
+    if v is not None:
+        a['verbosity'] = v
+    return a
+
+
+def capture_of(t):
+    """label of the capture mode of a task spec"""
+    return 'default' if t.get('io') is None else str(t['io'].get('capture', True))
+
+
+def fixed_exec_scenario():
+    """the task set of the systematic (seed-independent) block of (1c): executed in the order t3, t2, t1, t0"""
+    ok = lambda **kw: dict(kind='ok', **kw)
+    tasks = [
+        dict(name='t0', file_dep=['src0'], targets=['out0'], task_dep=['t1'], actions=[ok(cmd=True), ok()], teardown=False, pad=0,
+             io={'capture': False}, verbosity=2),
+        dict(name='t1', file_dep=['src1', 'out2'], targets=['out1'], task_dep=[], actions=[ok(), ok()], teardown=True, pad=7,
+             io={'capture': False}, verbosity=0),
+        dict(name='t2', file_dep=['src2'], targets=['out2'], task_dep=['t3'], actions=[ok()], teardown=False, pad=0,
+             io={'capture': None}, verbosity=1),
+        dict(name='t3', file_dep=['src3'], targets=['out3'], task_dep=[], actions=[ok()], teardown=False, pad=300),
+    ]
+    return dict(tasks=tasks, selected=['t0'])
+
+
+RUNNER_ARGS = {'serial': [], 'process': ['-n', '2'], 'thread': ['-n', '2', '-P', 'thread'], 'timestamp': ['--check_file_uptodate', 'timestamp']}
+
+
 def gen_scenario(rng, n, big=False, select_all=False):
     """tasks t0..t(n-1); dependencies point to higher ids, so execution order differs from definition order.
     Every task has its own source file as file_dep (so it can be up-to-date) and one target."""
@@ -392,6 +458,10 @@ def gen_scenario(rng, n, big=False, select_all=False):
         tasks.append(dict(name='t%d' % i, file_dep=fdep, targets=['out%d' % i], task_dep=tdep,
                           actions=[dict(kind='ok') for _ in range(rng.choice([1, 1, 2]))],
                           teardown=rng.random() < 0.3, pad=rng.choice([0, 0, 7, 300])))
+    for t in tasks:
+        t.update(exec_attrs(rng))
+        if len(t['actions']) > 1 and rng.random() < 0.4:
+            t['actions'][0]['cmd'] = True     # cmd-action unless this is the action that is interrupted
     sel = ['t%d' % i for i in range(n)]
     rng.shuffle(sel)
     if rng.random() < 0.3 and not select_all:
@@ -438,6 +508,8 @@ def gen_value_scenario(rng, n):
             j = rng.randrange(i + 1, n)
             tasks[j]['actions'][0]['ret'] = 'dict'
             tasks[i]['getargs'] = ['t%d' % j, rng.choice(['rev', 'rev', None])]
+    for t in tasks:
+        t.update(exec_attrs(rng))
     sel = ['t%d' % i for i in range(n)]
     rng.shuffle(sel)
     return dict(tasks=tasks, selected=sel)
@@ -923,10 +995,27 @@ def part_interrupt(ctx, out, cases):
                 j2 = dict(job)
                 j2['dir'] = job['dir'] + 'p'
                 j2['runner'] = rng.choice(['process', 'thread', 'timestamp'])
-                j2['args'] = list(job['args']) + {'process': ['-n', '2'], 'thread': ['-n', '2', '-P', 'thread'],
-                                                  'timestamp': ['--check_file_uptodate', 'timestamp']}[j2['runner']]
+                j2['args'] = list(job['args']) + RUNNER_ARGS[j2['runner']]
                 extra.append(j2)
         jobs += extra
+    # ---- (1c) systematic block, the same on every seed (no PRNG draw): the interrupt inside every action of the tasks whose
+    # output is NOT captured (capture False / None), every backend, every runner flavour, both exceptions
+    fsc = fixed_exec_scenario()
+    n_fixed = 0
+    for backend in BACKENDS:
+        for runner in ('serial', 'thread', 'process'):
+            points = [(t['name'], ai) for t in fsc['tasks'] if capture_of(t) in ('False', 'None') for ai in range(len(t['actions']))]
+            if ctx.quick and runner != 'serial':
+                # quick tier, parallel runners: after the cmd-action of t0 (capture False), first action of t1 (capture False), t2 (capture None)
+                points = [pt for pt in points if pt in (('t0', 1), ('t1', 0), ('t2', 0))]
+            for pi, (target, ai) in enumerate(points):
+                for variant in (('prior',) if ctx.quick else ('prior', 'fresh')):
+                    for kind in ((('kbd', 'sysexit')[(pi + BACKENDS.index(backend)) % 2],) if ctx.quick else ('kbd', 'sysexit')):
+                        jobs.append(dict(dir=os.path.join(base, 'x%d' % len(jobs)), sc=fsc, backend=backend, variant=variant, target=target, ai=ai,
+                                         kind=kind, modify=sources_of(fsc) if variant == 'prior' else [], failing=None, runner=runner,
+                                         args=list(RUNNER_ARGS[runner]), fixed=True))
+                        n_fixed += 1
+    out.extra['interrupt_runs_systematic_execution_modes'] = n_fixed
     with concurrent.futures.ThreadPoolExecutor(max_workers=common.NCPU) as ex:
         results = list(ex.map(interrupt_case, jobs))
     n_model = n_dbmodel = 0
@@ -976,9 +1065,32 @@ def part_interrupt(ctx, out, cases):
             if why:
                 out.violations.append(dict(what='interrupted run (%s in %s, backend %s): %s' % (job['kind'], job['target'], job['backend'], why),
                                            shape=shape + ':trace', case=desc))
-        if reached and (res['rc1'] != 4 or not res['closed']):
-            out.violations.append(dict(what='interrupt in %s: exit code %s, DB closed: %s (expected the interrupt to escape after close)'
-                                            % (job['target'], res['rc1'], res['closed']), shape=shape + ':exit', case=desc))
+        # oracle 0: the run IS interrupted.  Once the interrupting action was started the exception must end the run: it escapes
+        # DoitMain.run (child exit status 4), the interrupted task is neither reported successful nor saved, and (serial runner) no
+        # action is started after it.  A swallowed interrupt is a violation whatever the DB says afterwards.
+        raised = (job['target'], job['ai']) in [tuple(x) for x in v1['started']]
+        mode = 'io capture=%s, verbosity=%s' % (capture_of(sc['tasks'][k]), sc['tasks'][k].get('verbosity'))
+        if raised:
+            why0 = []
+            if res['rc1'] != 4:
+                why0.append('the exception did not reach the caller of DoitMain.run (exit status %s%s)'
+                            % (res['rc1'], '' if v1['escaped'] else ', nothing escaped'))
+            if [6, k] in v1['events'] or [7, k] in v1['events']:
+                why0.append('the interrupted task was %s' % ' and '.join(w for c, w in ((6, 'reported successful'), (7, 'saved as successful')) if [c, k] in v1['events']))
+            after = [tuple(x) for x in v1['started']]
+            after = after[after.index((job['target'], job['ai'])) + 1:]
+            if serial and after:
+                why0.append('the run went on: actions started after the interrupt: %s' % after)
+            if why0:
+                out.violations.append(dict(what='SWALLOWED INTERRUPT: %s raised inside action %d of %s (%s; %s backend, %s runner) did not end the run: %s'
+                                                % ({'kbd': 'KeyboardInterrupt', 'sysexit': 'SystemExit'}[job['kind']], job['ai'], job['target'], mode,
+                                                   job['backend'], job['runner'], '; '.join(why0)), shape=shape + ':swallowed', case=desc))
+            elif not res['closed']:
+                out.violations.append(dict(what='interrupt in %s: exit code %s, DB closed: %s (expected the interrupt to escape after close)'
+                                                % (job['target'], res['rc1'], res['closed']), shape=shape + ':exit', case=desc))
+        elif reached:
+            out.mismatches.append(dict(case=desc, impl='task %s was executed but its action %d never started' % (job['target'], job['ai']),
+                                       model='the interrupting action is reached'))
         # oracle 2: what the DB records
         if res['recorded'] != res['expected_recorded']:
             out.violations.append(dict(what='after the interrupted run the %s DB records %s, the successful+flushed tasks are %s'
@@ -997,6 +1109,10 @@ def part_interrupt(ctx, out, cases):
         if reached:
             out.count('interrupted-at-action:%d-of-%d' % (job['ai'], len(sc['tasks'][k]['actions'])))
             tt = sc['tasks'][k]
+            out.count('interrupted-task-capture:%s:%s:%s%s' % (capture_of(tt), job['backend'], job['runner'], ':systematic' if job.get('fixed') else ''))
+            out.count('interrupted-task-verbosity:%s' % tt.get('verbosity'))
+            if any(a.get('cmd') for a in tt['actions'][:job['ai']]):
+                out.count('interrupted-task-feature:cmd-action-before')
             feats = [f for f, on in (('values-uptodate', tt.get('revfile')), ('getargs-consumer', tt.get('getargs')),
                                      ('getargs-producer', any((x.get('getargs') or [None])[0] == tt['name'] for x in sc['tasks'])),
                                      ('returned-dict-before', any(a.get('ret') == 'dict' for a in tt['actions'][:job['ai']])),
@@ -1046,7 +1162,7 @@ def part_interrupt(ctx, out, cases):
             out.samples.append(dict(kind='interrupt', backend=job['backend'], interrupted=job['target'], action=job['ai'], raised=job['kind'],
                                     trace=v1['trace'], recorded_after=res['recorded'], next_run_skipped=skipped2, next_run_executed=executed2))
     # the replay files are written for the first few distinct shapes: the record rule and the next run's decision first
-    prio = {'record': 0, 'lying': 1, 'values': 2, 'getargs': 3, 'saved-values': 4}
+    prio = {'record': 0, 'lying': 1, 'swallowed': 2, 'values': 3, 'getargs': 4, 'saved-values': 5}
     out.violations.sort(key=lambda v: prio.get(v['shape'].rsplit(':', 1)[-1], 9))
     out.extra['interrupt_runs'] = len(jobs)
     out.extra['interrupt_runs_compared_with_Runner_v'] = n_model
@@ -1634,7 +1750,9 @@ def run(ctx):
     out.rule = ('interrupt: every (task, action index) of each generated task set x backend x {fresh, prior DB content[, earlier failing task]} x '
                 '{KeyboardInterrupt, SystemExit}; value half: every (task, action index) of task sets with multi-action tasks returning value dicts / '
                 'result strings, values-reading uptodate callables and getargs consumers x backend x {serial, thread} x {prior, prior + edit taken back, '
-                'two prior runs}; kill: every (syscall, k) of the un-injected counting run x backend x {fresh, prior, prior+failing task}; '
+                'two prior runs}; execution modes: every generated task has io capture True/False/None/default, verbosity 0/1/2/default (and cmd-actions '
+                'before the interrupted action) from the PRNG, plus a seed-independent block: every action of the capture False / None tasks of a fixed '
+                'chain x backend x {serial, thread, process} x {KeyboardInterrupt, SystemExit}; kill: every (syscall, k) of the un-injected counting run x backend x {fresh, prior, prior+failing task}; '
                 'non-trivial = distinct (configuration, observed trace) of a run whose interrupt was reached / distinct kill point at which the process really died')
     cases = []
     part_interrupt(ctx, out, cases)
@@ -1646,6 +1764,10 @@ def run(ctx):
     for i, m in bad:
         out.mismatches.append(dict(case=cases[i]['desc'], impl=cases[i]['expected'][:400], model=m[:400]))
     out.assumptions = [
+        'the capture mode (io capture True/False/None), the verbosity and the action class (python-action / cmd-action) of a task are varied on the '
+        'IMPLEMENTATION side only: Model/Runner.v and Model/Crash.v do not have these attributes -- the model has one trace for an interrupting action '
+        '(execute, then close, exit by the escaping exception), so the correspondence check and oracle 0 (the interrupt ends the run) state what must '
+        'happen in every execution mode; that doit takes the same decisions in every mode is observed (systematic block + PRNG), not proved',
         'PARTIAL: the on-disk behaviour of dbm.dumb, sqlite3 and the kernel is swept (kill at every traced system call), not proved',
         'J-prefix / J-extra (Section variables of Proofs/CrashP.v): json.JSONDecoder rejects every proper prefix of an encoded object and every '
         'encoded object followed by the tail of a longer one -- exercised on every DB document and record of this run',
@@ -1677,17 +1799,26 @@ def replay(ctx, payload):
         res = interrupt_case(job)
         names = [t['name'] for t in sc['tasks']]
         print('interrupted run: rc=%s trace=%s' % (res.get('rc1'), res.get('v1', {}).get('trace')))
+        v1 = res.get('v1') or {'started': [], 'events': []}
+        k = names.index(case['target'])
+        raised = [case['target'], case['ai']] in [list(x) for x in v1['started']]
+        swallowed = raised and (res.get('rc1') != 4 or [6, k] in v1['events'] or [7, k] in v1['events'])
+        print('interrupting action started: %s; exit status of the interrupted run: %s (4 = the exception escaped DoitMain.run); '
+              'actions started: %s%s' % (raised, res.get('rc1'), v1['started'], '  <-- SWALLOWED INTERRUPT' if swallowed else ''))
         print('DB records %s, expected %s' % (res.get('recorded'), res.get('expected_recorded')))
         v2 = res.get('v2', {'events': []})
         skipped = sorted(names[i] for i in ev_tasks(v2, 3))
         print('next run: rc=%s skipped=%s executed=%s, expected skipped=%s' % (res.get('rc2'), skipped, sorted(names[i] for i in ev_tasks(v2, 5)), res.get('expect_skip2')))
         tgt = case['target']
+        lying = bool(raised and not case.get('revert') and tgt in v2.get('sel', {}) and tgt not in [names[i] for i in ev_tasks(v2, 5)])
+        if lying:
+            print('LYING DB: the interrupted task %s was skipped by the next run' % tgt)
         print('record of the interrupted task %s before the interrupted run: %s' % (tgt, canon(res.get('rec0', {}).get(tgt))))
         print('record of the interrupted task %s after  the interrupted run: %s' % (tgt, canon(res.get('rec1', {}).get(tgt))))
         for ckind, what in res.get('complaints', []):
             print('%s: %s' % (ckind, what))
         bad = (res.get('recorded') != res.get('expected_recorded') or skipped != res.get('expect_skip2') or res.get('rc2') != 0
-               or res.get('complaints') or res.get('problems'))
+               or res.get('complaints') or res.get('problems') or swallowed or lying)
         return 1 if bad else 0
     if kind == 'kill':
         base = os.path.join(ctx.subdir('replay'), 'base')
